@@ -8,6 +8,9 @@ _Static_assert(sizeof(struct value) == 16, "struct value has no padding");
 #include "chan.c"          /* real: chan_set, set_dirty (inlined under cb_select / cb_input) */
 #include "bay.c"           /* real: bay_enable_cb, bay_disable_cb, bay_add_cb */
 #include "mux.c"           /* real: the unit */
+#ifdef THREAD_MODE
+#include "thread.c"        /* real: thread_select_running / thread_select_active as the mux's select function */
+#endif
 
 #ifndef NIN
 #define NIN 3              /* inputs allocated by the cb_select harness; cb_select has no loop over inputs */
@@ -27,6 +30,14 @@ static inline int64_t spec_cur_i(struct chan *c)
 	if (c->type == CHAN_SINGLE) return spec_single_i(c);
 	if (c->data.stack.n > 0) { struct value v = c->data.stack.values[c->data.stack.n - 1]; return v.i; }
 	return 0;
+}
+static inline struct value spec_cur(struct chan *c)
+{
+	struct value v;
+	if (c->type == CHAN_SINGLE) { v = c->data.value; return v; }
+	if (c->data.stack.n > 0) { v = c->data.stack.values[c->data.stack.n - 1]; return v; }
+	v.type = VALUE_NULL; v.i = 0;
+	return v;
 }
 #define CHAN_WF(c) ((c)->type == CHAN_SINGLE || ((c)->type == CHAN_STACK && (c)->data.stack.n >= 0 && (c)->data.stack.n <= MAX_CHAN_STACK))
 
@@ -105,8 +116,9 @@ __CPROVER_ensures(ENABLE_POST(cb, BAY_CB_DIRTY, __CPROVER_old(cb->enabled), __CP
 	__CPROVER_old(cb->bchan->ncallbacks[BAY_CB_DIRTY])))
 ;
 
+#ifdef H_BAY_ENABLE_CB
 /* plain proof of the same predicates against the real function */
-static void *alloc(size_t n) { void *p = malloc(n); __CPROVER_assume(p != NULL); return p; } /* allocation succeeded */
+static void *alloc(size_t n);
 static void
 prove_bay_enable_cb(int type)
 {
@@ -159,6 +171,8 @@ prove_bay_enable_cb(int type)
 }
 void h_bay_enable_cb_dirty(void) { prove_bay_enable_cb(BAY_CB_DIRTY); }
 void h_bay_enable_cb_emit(void) { prove_bay_enable_cb(BAY_CB_EMIT); }
+#endif
+static void *alloc(size_t n) { void *p = malloc(n); __CPROVER_assume(p != NULL); return p; } /* allocation succeeded */
 
 void c_bay_disable_cb(struct bay_cb *cb)
 __CPROVER_requires(__CPROVER_is_fresh(cb, BCB) && (cb->type == BAY_CB_DIRTY || cb->type == BAY_CB_EMIT))
@@ -202,6 +216,11 @@ void h_bay_disable_cb(void)
  * the callback list of each input channel also holds up to two callbacks of OTHER muxes (X, Y) before
  * and after the input's own callback.  cb_select does not loop over inputs: NIN = 3 covers old == new,
  * old != new and an uninvolved third input. */
+#ifdef NINPUTS
+#define NALLOC NINPUTS   /* objects are built for the existing inputs only */
+#else
+#define NALLOC NIN
+#endif
 struct mux *G_mux;
 struct chan *G_sel, *G_out, *G_in[NIN];
 struct bay_cb *G_cb[NIN], *G_x[NIN], *G_y[NIN];
@@ -211,7 +230,7 @@ struct bay_chan *G_bc[NIN];
 #define IN_WF(m, i) ((m)->ninputs <= (i) || ( \
 	IN(m, i).index == (i) && IN(m, i).cb == G_cb[i] && IN(m, i).chan == G_in[i] && IN(m, i).output == (m)->output && \
 	G_cb[i]->type == BAY_CB_DIRTY && G_cb[i]->bchan == G_bc[i] && G_cb[i]->func == cb_input && G_cb[i]->arg == &IN(m, i) && \
-	G_bc[i]->chan == G_in[i] && G_bc[i]->ncallbacks[BAY_CB_DIRTY] >= 0 && G_bc[i]->ncallbacks[BAY_CB_DIRTY] < INT_MAX - 2 && \
+	G_bc[i]->chan == G_in[i] && \
 	CHAN_WF(G_in[i]) && \
 	/* an input whose callback is enabled, or which is flagged selected, is THE selected input */ \
 	(G_cb[i]->enabled == 0 || (m)->selected == (i)) && (IN(m, i).selected == 0 || (m)->selected == (i))))
@@ -226,6 +245,7 @@ struct bay_chan *G_bc[NIN];
 	ON_LIST(i) == ((m)->selected == (i))))
 #define MUX_SYNC_INPUTS(m) (IN_SYNC(m, 0) && IN_SYNC(m, 1) && IN_SYNC(m, 2))
 
+#define NCB_OK(i) (NALLOC <= (i) || G_bc[i]->ncallbacks[BAY_CB_DIRTY] >= 0 && G_bc[i]->ncallbacks[BAY_CB_DIRTY] < INT_MAX - 2)
 /* builds the callback list [before..., own?, after...] of input i */
 static void
 link3(struct bay_chan *bc, struct bay_cb *a, struct bay_cb *b, struct bay_cb *c)
@@ -244,7 +264,8 @@ link3(struct bay_chan *bc, struct bay_cb *a, struct bay_cb *b, struct bay_cb *c)
 }
 
 int w_nin, w_oldsel, w_en0, w_en1, w_en2, w_outdirty, w_outcb, w_shape0, w_shape1, w_shape2, w_seltype;
-int64_t w_kt, w_ki, w_deft, w_defi;
+int64_t w_kt, w_ki, w_deft, w_defi, w_it0;
+int w_intype0;
 
 static void
 build_mux(mux_select_func_t fsel)
@@ -252,15 +273,19 @@ build_mux(mux_select_func_t fsel)
 	G_mux = alloc(sizeof(struct mux));
 	G_sel = alloc(sizeof(struct chan));
 	G_out = alloc(sizeof(struct chan));
+#ifdef NINPUTS
+	int64_t n = NINPUTS;           /* one group per number of inputs 0..NIN (cheaper than a symbolic array size) */
+#else
 	int64_t n = nondet_long();
 	__CPROVER_assume(n >= 0 && n <= NIN);
+#endif
 	G_mux->ninputs = n;
 	G_mux->inputs = alloc(sizeof(struct mux_input) * (size_t) n);
 	G_mux->output = G_out;
 	G_mux->select = G_sel;
 	G_mux->select_func = fsel;
 	G_out->dirty_cb = nondet_bool() ? stub_dirty_cb : NULL;
-	for (int i = 0; i < NIN; i++) {
+	for (int i = 0; i < NALLOC; i++) {
 		G_in[i] = alloc(sizeof(struct chan));
 		G_bc[i] = alloc(sizeof(struct bay_chan));
 		G_cb[i] = alloc(BCB);
@@ -296,9 +321,27 @@ int64_t g_ot, g_oi, g_deft, g_defi;
 int g_out_dirty;
 
 #define KEY_NONE      (g_kt == VALUE_NULL)
+#ifndef THREAD_MODE
+/* default selector (CPU tracks): the key is the index of the input */
+#define FSEL          NULL
 #define KEY_INDEX(m)  (g_kt == VALUE_INT64 && g_ki >= 0 && g_ki < (m)->ninputs)
 #define KEY_BAD(m)    (!KEY_NONE && !KEY_INDEX(m))
 #define NEWSEL(m)     (KEY_INDEX(m) ? g_ki : -1)
+#define KEY_PRE       1
+#else
+/* thread tracks: the key is the thread state (select channel = the thread's state channel, which holds
+ * null or value_int64(th->state)); THREAD_MODE 1: while running, 2: while running, cooling or warming */
+#if THREAD_MODE == 1
+#define FSEL          thread_select_running
+#define IN_MODE(st)   ((st) == TH_ST_RUNNING)
+#else
+#define FSEL          thread_select_active
+#define IN_MODE(st)   ((st) == TH_ST_RUNNING || (st) == TH_ST_COOLING || (st) == TH_ST_WARMING)
+#endif
+#define KEY_BAD(m)    (!KEY_NONE && !(g_kt == VALUE_INT64 && (m)->ninputs == 1))
+#define NEWSEL(m)     ((g_kt == VALUE_INT64 && IN_MODE(g_ki)) ? 0 : -1)
+#define KEY_PRE       (g_kt != VALUE_INT64 || (g_ki >= 0 && g_ki <= 0xffffffffLL))
+#endif
 
 /* Plain CBMC harness (no DFCC instrumentation: see TOOL LIMIT; the replaced-contract form of
  * bay_enable_cb crashes the tool as well): precondition assumed, every postcondition asserted, frame
@@ -310,18 +353,21 @@ struct snap {
 	struct bay_cb cb[NIN], x[NIN], y[NIN];
 	struct bay_chan bc[NIN];
 	int64_t lt[NIN + 2], li[NIN + 2];
-	int dirty[NIN + 2];
+	int dirty[NIN + 2], depth[NIN + 1];
+	enum chan_type type[NIN + 1];
 };
 static void
 take_snap(struct snap *s)
 {
 	s->mux = *G_mux;
-	for (int i = 0; i < NIN; i++) {
+	for (int i = 0; i < NALLOC; i++) {
 		if (i < G_mux->ninputs) s->in[i] = G_mux->inputs[i];
 		s->cb[i] = *G_cb[i]; s->x[i] = *G_x[i]; s->y[i] = *G_y[i]; s->bc[i] = *G_bc[i];
 		s->lt[i] = G_in[i]->last_value.type; s->li[i] = G_in[i]->last_value.i; s->dirty[i] = G_in[i]->is_dirty;
+		s->type[i] = G_in[i]->type; s->depth[i] = G_in[i]->data.stack.n;
 	}
 	s->lt[NIN] = G_sel->last_value.type; s->li[NIN] = G_sel->last_value.i; s->dirty[NIN] = G_sel->is_dirty;
+	s->type[NIN] = G_sel->type; s->depth[NIN] = G_sel->data.stack.n;
 	s->lt[NIN + 1] = G_out->last_value.type; s->li[NIN + 1] = G_out->last_value.i;
 }
 /* frame common to cb_select and cb_input: what must NOT change */
@@ -331,9 +377,9 @@ check_frame(struct snap *s, int64_t involved_a, int64_t involved_b)
 	VASSERT(G_mux->bay == s->mux.bay && G_mux->ninputs == s->mux.ninputs && G_mux->inputs == s->mux.inputs &&
 		G_mux->select_func == s->mux.select_func && G_mux->select == s->mux.select && G_mux->output == s->mux.output &&
 		G_mux->def.type == s->mux.def.type && G_mux->def.i == s->mux.def.i, "frame: mux configuration");
-	for (int i = 0; i < NIN; i++) {
+	for (int i = 0; i < NALLOC; i++) {
 		/* input channels, the select channel: value, dirty bit, last value untouched */
-		VASSERT(spec_cur_t(G_in[i]) == g_it[i] && spec_cur_i(G_in[i]) == g_ii[i] && G_in[i]->is_dirty == s->dirty[i] &&
+		VASSERT(G_in[i]->is_dirty == s->dirty[i] && G_in[i]->type == s->type[i] && G_in[i]->data.stack.n == s->depth[i] &&
 			G_in[i]->last_value.type == s->lt[i] && G_in[i]->last_value.i == s->li[i], "frame: input channel");
 		if (i < G_mux->ninputs)
 			VASSERT(IN(G_mux, i).index == s->in[i].index && IN(G_mux, i).chan == s->in[i].chan &&
@@ -351,37 +397,46 @@ check_frame(struct snap *s, int64_t involved_a, int64_t involved_b)
 				G_x[i]->next == s->x[i].next && G_x[i]->prev == s->x[i].prev && G_y[i]->next == s->y[i].next && G_y[i]->prev == s->y[i].prev,
 				"frame: uninvolved input");
 	}
-	VASSERT(spec_cur_t(G_sel) == g_kt && spec_cur_i(G_sel) == g_ki && G_sel->is_dirty == s->dirty[NIN] &&
+	VASSERT(G_sel->type == s->type[NIN] && G_sel->data.stack.n == s->depth[NIN] && G_sel->is_dirty == s->dirty[NIN] &&
 		G_sel->last_value.type == s->lt[NIN] && G_sel->last_value.i == s->li[NIN], "frame: select channel");
 	VASSERT(G_out->last_value.type == s->lt[NIN + 1] && G_out->last_value.i == s->li[NIN + 1] && G_out->type == CHAN_SINGLE &&
 		G_out->prop[CHAN_DIRTY_WRITE] != 0 && G_out->prop[CHAN_ALLOW_DUP] != 0, "frame: output channel configuration and last value");
 }
 /* the other callbacks of a channel stay linked in their order whatever happens to the input's own callback */
-#define OTHERS_LINKED(i, shape) ( \
+#define OTHERS_LINKED(i, shape) (G_mux->ninputs <= (i) || ( \
 	((shape) != 0 || (!ON_LIST(i) ? G_bc[i]->cb[BAY_CB_DIRTY] == NULL : (G_bc[i]->cb[BAY_CB_DIRTY] == G_cb[i] && G_cb[i]->prev == G_cb[i]))) && \
 	(!((shape) & 1) || G_bc[i]->cb[BAY_CB_DIRTY] == G_x[i]) && \
 	((shape) != 3 || (G_x[i]->next == G_y[i] && G_y[i]->prev == G_x[i])) && \
-	((shape) != 2 || G_bc[i]->cb[BAY_CB_DIRTY] == G_y[i]))
+	((shape) != 2 || G_bc[i]->cb[BAY_CB_DIRTY] == G_y[i])))
 
 static void
 bind_pre(void)
 {
-	g_kt = spec_cur_t(G_sel); g_ki = spec_cur_i(G_sel);
-	for (int i = 0; i < NIN; i++) { g_it[i] = spec_cur_t(G_in[i]); g_ii[i] = spec_cur_i(G_in[i]); }
+	struct value v = spec_cur(G_sel);
+	g_kt = v.type; g_ki = v.i;
+	for (int i = 0; i < NALLOC; i++) { v = spec_cur(G_in[i]); g_it[i] = v.type; g_ii[i] = v.i; }
 	g_ot = spec_single_t(G_out); g_oi = spec_single_i(G_out); g_out_dirty = G_out->is_dirty;
 	g_deft = G_mux->def.type; g_defi = G_mux->def.i; g_cb_calls = 0;
 	w_nin = (int) G_mux->ninputs; w_oldsel = (int) G_mux->selected; w_kt = g_kt; w_ki = g_ki;
-	w_en0 = G_cb[0]->enabled; w_en1 = G_cb[1]->enabled; w_en2 = G_cb[2]->enabled;
+	w_en0 = NALLOC > 0 ? G_cb[0]->enabled : 0; w_en1 = NALLOC > 1 ? G_cb[1]->enabled : 0; w_en2 = NALLOC > 2 ? G_cb[2]->enabled : 0;
 	w_outdirty = G_out->is_dirty; w_outcb = (G_out->dirty_cb != NULL); w_deft = g_deft; w_defi = g_defi;
+	w_it0 = g_it[0]; w_intype0 = NALLOC > 0 ? (int) G_in[0]->type : 0;
 }
 
+#ifdef H_CB_SELECT
 void h_cb_select(void)
 {
 	struct snap s;
-	build_mux(NULL);
+	build_mux(FSEL);
 	/* precondition */
 	__CPROVER_assume(CHAN_WF(G_sel) && MUX_WF(G_mux) && DIAG_PRE);
+	/* every toggle increments bay_chan.ncallbacks (bay_disable_cb increments too): counter below INT_MAX - 2 */
+	__CPROVER_assume(NCB_OK(0) && NCB_OK(1) && NCB_OK(2));
+#ifdef ALL_SINGLE
+	__CPROVER_assume(G_sel->type == CHAN_SINGLE && (NALLOC <= 0 || G_in[0]->type == CHAN_SINGLE) && (NALLOC <= 1 || G_in[1]->type == CHAN_SINGLE) && (NALLOC <= 2 || G_in[2]->type == CHAN_SINGLE));
+#endif
 	bind_pre();
+	__CPROVER_assume(KEY_PRE);
 	take_snap(&s);
 	unsigned err0 = g_err;
 
@@ -407,15 +462,101 @@ void h_cb_select(void)
 		"the output's dirty callback runs exactly once iff the output becomes dirty");
 	check_frame(&s, s.mux.selected, NEWSEL(G_mux));
 
+#if NINPUTS >= 2
 	if (r == 0 && w_oldsel == 0 && w_ki == 1 && w_kt == VALUE_INT64 && w_en0) REACH("switch from input 0 to input 1");
 	if (r == 0 && w_oldsel == 1 && w_ki == 1 && w_kt == VALUE_INT64 && w_en1) REACH("same input selected again");
+	if (r == 0 && w_oldsel == 1 && w_ki == 0 && w_kt == VALUE_INT64 && w_shape0 == 3 && w_shape1 == 3) REACH("switch with other callbacks around both inputs");
+#endif
+#if NINPUTS >= 3
 	if (r == 0 && w_oldsel == 2 && w_kt == VALUE_NULL && w_en2) REACH("switch from input 2 to none");
 	if (r == 0 && w_oldsel == -1 && w_ki == 2 && w_kt == VALUE_INT64) REACH("switch from none to input 2");
-	if (r == 0 && w_oldsel == 0 && !w_en0 && w_ki == 0 && w_kt == VALUE_INT64) REACH("first selection after mux_init (selected == 0, nothing enabled)");
-	if (r == 0 && w_oldsel == 1 && w_ki == 0 && w_kt == VALUE_INT64 && w_shape0 == 3 && w_shape1 == 3) REACH("switch with other callbacks around both inputs");
+#endif
+#if NINPUTS >= 1
+	if (r == 0 && w_oldsel == 0 && !w_en0 && G_mux->selected == 0) REACH("first selection after mux_init (selected == 0, nothing enabled)");
+	if (r == 0 && w_oldsel == 0 && w_en0 && w_kt == VALUE_NULL) REACH("switch from input 0 to none");
+	if (r == 0 && w_oldsel == -1 && G_mux->selected == 0 && w_it0 == VALUE_INT64) REACH("switch from none to input 0");
+#ifndef ALL_SINGLE
+	if (r == 0 && G_mux->selected == 0 && w_intype0 == CHAN_STACK && w_it0 == VALUE_INT64) REACH("stack channel selected");
+#endif
+#endif
+#ifdef THREAD_MODE
+	if (r == 0 && w_kt == VALUE_INT64 && w_ki == TH_ST_RUNNING && !w_en0) REACH("thread starts running: value shown");
+	if (r == 0 && w_kt == VALUE_INT64 && w_ki == TH_ST_PAUSED && w_en0) REACH("thread pauses: value hidden");
+	if (r == 0 && w_kt == VALUE_INT64 && w_ki == TH_ST_COOLING && w_en0) REACH("thread cools");
+	if (r == 0 && w_kt == VALUE_INT64 && w_ki == TH_ST_WARMING && !w_en0) REACH("thread warms");
+	if (r == 0 && w_kt == VALUE_INT64 && w_ki == TH_ST_DEAD && w_en0) REACH("thread dies: value hidden");
+#else
 	if (r != 0 && w_kt == VALUE_INT64 && w_ki == w_nin) REACH("refused: index out of range");
-	if (r != 0 && w_kt == VALUE_INT64 && w_ki < 0) REACH("refused: negative index");
+	if (r != 0 && w_kt == VALUE_INT64 && w_ki < 0) REACH("refused: negative index (or no inputs)");
+#endif
 	if (r != 0 && w_kt == VALUE_DOUBLE) REACH("refused: key is not null/int64");
 	if (r != 0 && w_kt == VALUE_NULL) REACH("refused: output channel failed");
-	if (r == 0 && w_nin == 0) REACH("mux without inputs, null key");
+	if (r == 0 && w_kt == VALUE_NULL) REACH("null key accepted");
 }
+#endif /* H_CB_SELECT */
+
+/* =====================================================================================
+ * DFCC groups (no list manipulation below them): cb_input, default_select
+ * ===================================================================================== */
+int64_t g_in_t, g_in_i;
+int w_in_type, w_hascb;
+WITNESS(cb_input);
+#define INP(p) ((struct mux_input *) (p))
+int c_cb_input(struct chan *in_chan, void *ptr)
+__CPROVER_requires(__CPROVER_is_fresh(in_chan, sizeof(struct chan)) && CHAN_WF(in_chan))
+__CPROVER_requires(__CPROVER_is_fresh(ptr, sizeof(struct mux_input)))
+__CPROVER_requires(__CPROVER_is_fresh(INP(ptr)->output, sizeof(struct chan)))
+/* the output channel of a mux as mux_init leaves it */
+__CPROVER_requires(INP(ptr)->output->type == CHAN_SINGLE && INP(ptr)->output->prop[CHAN_DIRTY_WRITE] != 0 && INP(ptr)->output->prop[CHAN_ALLOW_DUP] != 0)
+__CPROVER_requires(INP(ptr)->output->dirty_cb == NULL || INP(ptr)->output->dirty_cb == stub_dirty_cb)
+__CPROVER_requires(g_in_t == spec_cur_t(in_chan) && g_in_i == spec_cur_i(in_chan) && g_out_dirty == INP(ptr)->output->is_dirty && g_cb_calls == 0 && DIAG_PRE)
+__CPROVER_requires(WBIND(cb_input, w_in_type == (int) in_chan->type && w_outdirty == INP(ptr)->output->is_dirty && w_hascb == (INP(ptr)->output->dirty_cb != NULL)))
+__CPROVER_assigns(INP(ptr)->output->is_dirty, INP(ptr)->output->data.value, CB_FRAME, DIAG_FRAME)
+__CPROVER_ensures(__CPROVER_return_value == 0 || __CPROVER_return_value == -1)
+/* the output shows the input's value */
+__CPROVER_ensures(spec_single_t(INP(ptr)->output) == g_in_t && spec_single_i(INP(ptr)->output) == g_in_i && INP(ptr)->output->is_dirty != 0)
+/* fails only if the output channel's dirty callback failed; that callback runs once iff the output becomes dirty */
+__CPROVER_ensures((__CPROVER_return_value != 0) == (g_cb_calls == 1 && g_cb_ret != 0))
+__CPROVER_ensures(g_cb_calls == ((g_out_dirty == 0 && INP(ptr)->output->dirty_cb != NULL) ? 1u : 0u))
+;
+#ifdef H_CB_INPUT
+void h_cb_input(void)
+{
+	struct chan *in_chan; void *ptr;
+	chan_cb_t keep = stub_dirty_cb; (void) keep;
+	WITNESS_ON(cb_input);
+	int r = cb_input(in_chan, ptr);
+	if (r == 0 && w_in_type == CHAN_SINGLE && !w_outdirty) REACH("single input forwarded, output becomes dirty");
+	if (r == 0 && w_in_type == CHAN_STACK && w_outdirty) REACH("stack input forwarded to an already dirty output");
+	if (r != 0) REACH("refused: dirty callback failed");
+}
+#endif
+
+/* ---------------- default_select ---------------- */
+int64_t w_n;
+struct mux_input *g_inputs;
+WITNESS(default_select);
+int c_default_select(struct mux *mux, struct value key, struct mux_input **pinput)
+__CPROVER_requires(__CPROVER_is_fresh(mux, sizeof(*mux)) && __CPROVER_is_fresh(pinput, sizeof(*pinput)))
+__CPROVER_requires(mux->ninputs >= 0 && mux->ninputs <= (1 << 20) && __CPROVER_is_fresh(mux->inputs, sizeof(struct mux_input) * (size_t) mux->ninputs))
+__CPROVER_requires(g_inputs == mux->inputs && DIAG_PRE)
+__CPROVER_requires(WBIND(default_select, w_kt == key.type && w_ki == key.i && w_n == mux->ninputs))
+__CPROVER_assigns(*pinput, DIAG_FRAME)
+/* accepted exactly for the null key (no input) and for an int64 key that is an input index */
+__CPROVER_ensures((__CPROVER_return_value == 0) == (key.type == VALUE_NULL || (key.type == VALUE_INT64 && key.i >= 0 && key.i < mux->ninputs)))
+__CPROVER_ensures(__CPROVER_return_value == 0 || (__CPROVER_return_value == -1 && g_err > __CPROVER_old(g_err)))
+__CPROVER_ensures(__CPROVER_return_value != 0 || key.type != VALUE_NULL || *pinput == NULL)
+__CPROVER_ensures(__CPROVER_return_value != 0 || key.type != VALUE_INT64 || *pinput == &g_inputs[key.i])
+;
+#ifdef H_DEFAULT_SELECT
+void h_default_select(void)
+{
+	struct mux *mux; struct value key; struct mux_input **pinput;
+	WITNESS_ON(default_select);
+	int r = default_select(mux, key, pinput);
+	if (r == 0 && w_kt == VALUE_NULL) REACH("null key: no input");
+	if (r == 0 && w_kt == VALUE_INT64 && w_ki == 70000) REACH("input 70000 of a large mux");
+	if (r != 0 && w_kt == VALUE_INT64 && w_ki == w_n) REACH("refused: index == ninputs");
+	if (r != 0 && w_kt == VALUE_DOUBLE) REACH("refused: double key");
+}
+#endif
